@@ -45,6 +45,10 @@ def obligations(tier):
         if name == "aroon":
             n = w + 2
         obs.append(Ob(f"{spec_name(('ind', name, kw))}/definition-within-rounding-slack/n={n}", dict(spec=["ind", name, kw], n=n, tf=None, part="definition", k=k), INV, weight=20, budget_s=300))
+    # the same over an input reading of either sign that starts late (averages of oscillators: ROC, MACD, TSI are negative
+    # half of the time): rounding must be as accurate below zero as above it
+    for name, kw, w, k in (("WMA", dict(period=2), 1, 1), ("WMA", dict(period=3), 2, 1), ("SMA", dict(period=2), 1, None), ("EMA", dict(period=2), 1, 3), ("RMA", dict(period=2), 1, 3)):
+        obs.append(Ob(f"{spec_name(('ind', name, kw))}/definition-within-rounding-slack/signed late input/n={w + 4}", dict(spec=["ind", name, kw], n=w + 4, tf=None, part="definition", k=k, late=1), INV, weight=20, budget_s=300))
     # composites whose helper series keep THEIR OWN (default, 4-decimal) rounding whatever the parent's round_value is:
     # stored == round_rv(definition) within 0.5*10^-rv for the parent's rounding + a few helper roundings at 4 decimals
     # (not Supertrend: its direction flips are discontinuous in the rounded bands; not ATR/EMA/...: a top-level recursive
@@ -84,6 +88,14 @@ def run(ctx, P):
     if "rv" in P:
         common["round_value"] = rv
     common.update(P.get("extra") or {})
+    xs = None
+    if P.get("late") is not None:
+        # the input is another indicator's reading X - any sign - that starts after `late` candles
+        xs = [None] * P["late"] + [ctx.real(f"x{i}", -PRICE_HI, PRICE_HI) for i in range(P["late"], n)]
+        for c, xv in zip(cs, xs):
+            if xv is not None:
+                c.indicators["X"] = xv
+        kw = dict(kw, input_value="X")
     ind = build(name, kw, candles=cs, **common)
     ind.calculate()
     out = ind.as_list()
@@ -132,7 +144,7 @@ def run(ctx, P):
         return
     if part == "definition":
         from harness.defs import expected
-        ref = expected(ctx, name, kw, cs)
+        ref = expected(ctx, name, kw, cs, xs)
         for i, (g, r) in enumerate(zip(out, ref)):
             k = P.get("k") or (i + 2)          # running updates (SMA, OBV): one more rounding per step
             pairs = [(f, g.get(f) if isinstance(g, dict) else None, r[f]) for f in r] if isinstance(r, dict) else [(None, g, r)]
